@@ -108,6 +108,11 @@ def temp_grid(lo: float, hi: float):
     return [k / 20.0 for k in range(int(lo * 20), int(hi * 20) + 1)]
 
 
+# sub-minute part of a quick-timer value in milliseconds: whole minutes half of the time, otherwise anywhere in the
+# minute with the ends (1 ms, 29.999 s, 30 s, 59.999 s) over-represented - the API documents truncation to the minute
+_MILLIS = st.one_of(st.just(0), st.sampled_from([1, 29_999, 30_000, 30_001, 59_000, 59_999]), st.integers(0, 59_999))
+
+
 def calls_strategy(inst, state):
     """One generated call on this installation."""
     gen = inst["gen"]
@@ -122,8 +127,8 @@ def calls_strategy(inst, state):
             lambda k: ["ac_temp", n, _around(cmdref.ac_limits(inst, state, n), k)])),
         ac.flatmap(lambda n: st.integers(-300, 300).map(
             lambda k: ["ac_temp", n, _fine(cmdref.ac_limits(inst, state, n), k)])),
-        st.tuples(ac, st.sampled_from(TIMERS), st.integers(0, 24 * 60 + 90)).map(lambda t: ["quick_duration", t[0], t[1], t[2]]),
-        st.tuples(ac, st.sampled_from(TIMERS), st.integers(0, 23), st.integers(0, 59)).map(lambda t: ["timer_time", *t]),
+        st.tuples(ac, st.sampled_from(TIMERS), st.integers(0, 24 * 60 + 90), _MILLIS).map(lambda t: ["quick_duration", *t]),
+        st.tuples(ac, st.sampled_from(TIMERS), st.integers(0, 23), st.integers(0, 59), _MILLIS).map(lambda t: ["timer_time", *t]),
         st.tuples(ac, st.sampled_from(TIMERS)).map(lambda t: ["timer_clear", t[0], t[1]]),
         st.just(["updates"]),
     ]
